@@ -48,7 +48,7 @@ CLAIMS = {
     design_ref="DESIGN.md section 5 C19, section 10",
     note=("A fault is an OSError raised instead of performing the call; power-loss effects below the file API (torn "
           "writes, reordering by the OS) are out of scope. Orphan part files after a failed append are allowed."),
-    technique="TLA+ spec with fault action + TLC; exhaustive fault injection at every filesystem call; trace validation"),
+    technique="TLA+ spec with fault action + TLC; exhaustive fault injection at every filesystem call; trace validation (faulted runs and the repository's own test-suite under observation)"),
  "C07": dict(
     level="model_checking",
     text=("Three specifications decide it: SingleFile.tla (append to a simple file: DataIntact as an action property on "
@@ -63,7 +63,7 @@ CLAIMS = {
     note=("Bounds: appends of 0..2 row groups to single files (histories of 2, thorough 3); hive appends over the frame "
           "sets incl. an 11-row-group dataset; categorical lists {ab, xy, abc, ba}, <= 2 rows per batch, <= 2 (3) batches. "
           "Known finding KF-C07-1 (categoricals relabelled by the last dictionary) is matched by model prediction."),
-    technique="TLA+ specs + TLC model checking; spec->code history replay; code->spec call-trace validation"),
+    technique="TLA+ specs + TLC model checking; spec->code history replay; code->spec call-trace validation (replays and the repository's own test-suite under observation)"),
  "C18": dict(
     level="model_checking",
     text=("SingleFile.tla has explicit AppFail (exception at every (row group, column) position after the earlier chunks "
@@ -192,7 +192,7 @@ CLAIMS = {
     note=("Scope: structs reachable from FileMetaData and PageHeader that the library describes (encryption / bloom-filter "
           "structs are unknown to it). Known findings KF-C10-1..4 are all in native code (cencoding.pyx) and cannot be "
           "repaired here: field 14 dropped, i8/i16 widened to i64, buffer overrun for large binary fields, i8 read unsigned."),
-    technique="TLA+ specs: IDL-generated acceptor for token-trace validation, shape lattice export, integer buffer model"),
+    technique="TLA+ specs: IDL-generated acceptor for token-trace validation (shapes and every footer the library writes along TLC-enumerated operation routes), shape lattice export, integer buffer model"),
  "C12": dict(
     level="exploration",
     text=("Memory safety of compiled C is not a TLA+ notion: the specifications contribute the bounds models (Codec.tla's "
@@ -207,7 +207,7 @@ CLAIMS = {
           "read_bitpacked/_mask_for_bits/read_rle/delta_read_bitpacked/encode_bitpacked/zigzag/varint, heap overflow in "
           "write_thrift) are native and cannot be repaired here; a report in any other function or of another kind is a "
           "new violation. The generated foreign files of C03 are replayed by the C03 check itself."),
-    technique="TLA+ bounds models and input spaces + replay under an ASan/UBSan build (sanitizer is the oracle)"),
+    technique="TLA+ bounds models and TLC-generated input spaces (codec vectors, IDL shapes, write/read cases, foreign flat and nested layouts) replayed under an ASan/UBSan build (sanitizer is the oracle)"),
  "C03": dict(
     level="model_checking",
     text=("spec/Format.tla is a nondeterministic generator of VALID single-column Parquet layouts (row-group and page "
@@ -236,15 +236,20 @@ CLAIMS = {
     technique="TLA+ spec of views with Python slice semantics; TLC enumeration of access programs; spec->code replay"),
  "C17": dict(
     level="model_checking",
-    text=("spec/Predict.tla enumerates the product of file classes (own with and without pandas metadata, foreign file from "
-          "the independent encoder, hive and drill partitioned) and read-option tuples (columns all/subset/reordered, "
-          "categories none/list/dict/empty, index none/False/name, pandas_nulls, dtypes override); for each, what the handle "
-          "reports from metadata alone (columns and order, dtype per column, categorical/partition/index columns, total and "
-          "per-row-group counts) is compared with what to_pandas with the same options returns."),
-    design_ref="DESIGN.md section 5 C17, section 6",
-    note=("Weaker than the other model-checked properties: TLC contributes the exhaustive option product; the dtype case "
-          "analysis of _dtypes is not transcribed into TLA+, both sides of the comparison are observations of the code."),
-    technique="TLA+ spec enumerating file classes x read options (TLC); prediction-versus-read comparison on the real code"),
+    text=("spec/DtypeTable.tla transcribes converted_types.typemap and the post-processing of ParquetFile._dtypes as "
+          "Announce(schema element, pandas-metadata kind, statistics kind, pandas_nulls); TLC checks table-level invariants "
+          "(NullsRepresentable, OptionOnlyMattersForIntLike) over the whole product and exports every case with the dtype "
+          "the table announces; each case is rendered as a single-column file by the independent encoder (with a pandas "
+          "key-value block where the case says so) and the real handle's announcement, the real read and the read of a "
+          "zero-row selection must agree (a real announcement that differs from the transcription with the contract "
+          "intact is reported as drift). spec/Predict.tla enumerates file classes (own with/without pandas metadata, "
+          "foreign, hive, drill) x handle (whole, first slice, rest, empty slice, pickled) x read options (columns "
+          "all/subset/reordered, categories none/list/dict/empty, index none/False/name, pandas_nulls, dtypes override); "
+          "names, order, dtypes, index and the total / per-row-group counts announced are compared with the read."),
+    design_ref="DESIGN.md section 10.2, 10.3",
+    note=("Not modelled: timezone metadata, the categories argument's effect on dtypes beyond 'category', nested columns "
+          "(always object). Text may be announced/read as object or str."),
+    technique="TLA+ transcription of the dtype table (TLC-checked, exported) replayed through an independent encoder; TLC-enumerated option/handle product compared on the real code"),
  "C08": dict(
     level="model_checking",
     text=("spec/Partition.tla models the routing of partition_on (chunks by row-group offsets, grouping by key tuple, one "
@@ -282,7 +287,7 @@ CLAIMS = {
     note=("MAP columns are not generated (only LIST): the assembly code path is the same function, the key/value pairing "
           "into dicts is not exercised. Known findings: v1 continuation starting with nulls (exactly the model's "
           "predictions: no v1 failure outside them), v2 nested pages non-functional. Native code."),
-    technique="TLA+ spec: contract (record assembly) vs transcribed mechanism, TLC over all page cuts; replay via independent encoder"),
+    technique="TLA+ specs (LIST and MAP): contract (record assembly) vs transcribed assembler, TLC over all page cuts per leaf; replay via independent encoder, result compared with contract and with the mechanism model"),
 }
 
 NOT_BUILT = "not built yet (construction order in DESIGN.md section 9)"
